@@ -9,11 +9,11 @@ CONSTANTS Slack,        \* ms a deadline may be overshot
           FailBound,    \* ms after a TCP reset
           CloseBound    \* ms a Close may take
 Trace == ndJsonDeserialize(IOEnv.VERIF_TRACE)
-VARIABLES l, sc, cbeg, failT
+VARIABLES l, sc, cbeg, failT, lastW
 Ends == {"C", "S"}
 Peer(e) == IF e = "C" THEN "S" ELSE "C"
 Fresh == [e \in Ends |-> -1]
-Init == l = 1 /\ sc = -1 /\ cbeg = Fresh /\ failT = -1
+Init == l = 1 /\ sc = -1 /\ cbeg = Fresh /\ failT = -1 /\ lastW = Fresh
 Next == /\ l <= Len(Trace) /\ l' = l + 1
         /\ LET r == Trace[l]
                new == r.sc # sc
@@ -22,7 +22,9 @@ Next == /\ l <= Len(Trace) /\ l' = l + 1
            IN /\ sc' = r.sc
               /\ cbeg' = IF r.ev = "closebegin" /\ cb0[r.ep] < 0 THEN [cb0 EXCEPT ![r.ep] = r.t] ELSE cb0
               /\ failT' = IF r.ev = "fail" /\ f0 < 0 THEN r.t ELSE f0
-Spec == Init /\ [][Next]_<<l, sc, cbeg, failT>>
+              /\ lastW' = LET w0 == IF new THEN Fresh ELSE lastW
+                           IN IF r.ev = "op" /\ r.kind \in {"write", "bigwrite"} /\ r.end >= 0 THEN [w0 EXCEPT ![r.ep] = r.end] ELSE w0
+Spec == Init /\ [][Next]_<<l, sc, cbeg, failT, lastW>>
 R == Trace[l - 1]
 Seen == l > 1
 Max(a, b) == IF a > b THEN a ELSE b
@@ -34,6 +36,10 @@ DeadlineBounds == (IsIO /\ R.dl >= 0) => OpEnd <= Max(R.start, R.dl) + Slack
 LocalCloseReleases == (IsIO /\ cbeg[R.ep] >= 0) => OpEnd <= Max(R.start, cbeg[R.ep]) + LocalBound
 RemoteCloseReleases == (IsIO /\ cbeg[Peer(R.ep)] >= 0 /\ failT < 0) => OpEnd <= Max(R.start, cbeg[Peer(R.ep)]) + RemoteBound
 FailureReleases == (IsIO /\ failT >= 0 /\ R.tr = "tcp") => OpEnd <= Max(R.start, failT) + FailBound
+\* a Read under no deadline does not fail with a timeout - except the client's own response timeout, which fires 10 s after a Write
+Abs(x) == IF x < 0 THEN -x ELSE x
+NoSpuriousTimeout == (IsIO /\ R.kind = "read" /\ R.dl < 0 /\ R.res = "timeout") =>
+                        (R.ep = "C" /\ lastW["C"] >= 0 /\ Abs(R.end - (lastW["C"] + 10000)) <= Slack)
 ClosePrompt == (Seen /\ R.ev = "op" /\ R.kind \in {"close", "mclose"}) => (R.end >= 0 /\ R.end - R.start <= CloseBound)
 NothingLeftRunning == (Seen /\ R.ev = "end") => (R.leak = 0 /\ R.note = "")
 TraceAccepted == TLCGet("stats").diameter - 1 = Len(Trace)
